@@ -184,6 +184,8 @@ class SymCtx(BaseCtx):
         st = self.stats
         st["requires"] += 1
         self.path_obligs += 1
+        # to_solver=True: hand a symbolic condition to the solver even if the simplifier alone already reduces it to true
+        force = bool(info.pop("to_solver", False)) and not self.pinned
         if not isinstance(cond, SymBool):
             if bool(cond):
                 st["ground_true"] += 1
@@ -192,10 +194,12 @@ class SymCtx(BaseCtx):
             term = z3.BoolVal(False)
         else:
             term = z3.simplify(cond.t)
-            if z3.is_true(term):
+            if z3.is_true(term) and not force:
                 st["ground_true"] += 1
                 self.req_log.append((label, True))
                 return True
+            if force:
+                term = cond.t  # the solver gets the condition as the harness built it
         if self.pinned:
             ok = z3.is_true(term)
             self.req_log.append((label, ok))
@@ -227,7 +231,7 @@ class SymCtx(BaseCtx):
         pend, self.pending = self.pending, []
         if not pend:
             return
-        if len(pend) > 1:
+        if len(pend) > 1 and not getattr(self, "no_batch", False):  # a harness may set ctx.no_batch = True (nonlinear obligations: one query each is faster)
             r, s = self._query(z3.And(*[t for _, t, _ in pend]), self.oblig_timeout_ms)
             if len(st["samples"]) < 2:
                 st["samples"].append({"case": self.case_id, "labels": [l for l, _, _ in pend][:12], "result": str(r), "smt2": s.to_smt2()[:2500]})
@@ -303,6 +307,11 @@ class SymCtx(BaseCtx):
             s.add(*self.ex.pc)
             t0 = time.time()
             r = s.check()
+            if r == z3.unknown:
+                # a loaded machine or a hard non-linear pc: one retry with the obligation budget
+                s.set("timeout", max(20000, self.oblig_timeout_ms))
+                r = s.check()
+                st["queries"] += 1
             st["solver_s"] += time.time() - t0
             st["queries"] += 1
             if r == z3.unsat:
@@ -372,6 +381,7 @@ class ConcreteCtx(BaseCtx):
             raise AssumptionFailed()
 
     def require(self, label, cond, **info):
+        info.pop("to_solver", None)
         ok = bool(cond)
         self.req_log.append((label, ok))
         if not ok:
